@@ -30,6 +30,8 @@ pub fn parse_wcfg(s: &str) -> WCfg {
         WBackend::Rec(Some(c.parse().unwrap()))
     } else if b == "vec" {
         WBackend::VecOwned
+    } else if b == "vec-dirty" {
+        WBackend::VecDirty
     } else if let Some(c) = b.strip_prefix("slice") {
         WBackend::Slice(c.parse().unwrap())
     } else if b == "adapter-vec" {
